@@ -8,25 +8,38 @@ namespace XotModel
 
 variable (esc : Escapers) (env : Env) (pr : TokenParams) (t : Tree)
 
+/-- An `EndTag` event is only reached after the `StartTagOpen` of the same element was rendered with
+    the same stack, so the check of that arm (/repo a32c6f4) holds for it too: the element is not a
+    no-namespace element in the scope of a default namespace. -/
+def EndTagOk (x : FStack × Path × Output) : Prop :=
+  ∀ name, x.2.2 = .endTag name →
+    ¬ (env.nsOfName name = Env.noNamespace ∧ x.1.hasDefaultNamespace = true)
+
+theorem endTagOk_of_not_end {x : FStack × Path × Output} (h : ∀ name, x.2.2 ≠ .endTag name) :
+    EndTagOk env x := fun name hn => absurd hn (h name)
+
 /-- The claim about one trace entry, relative to the node `n` at `path` and the frames `fs` the
     stack stood for when `n` was entered. -/
 def EntryOk (path : Path) (n : Tree) (fs : Frames) (x : FStack × Path × Output) : Prop :=
-  ∃ rel, x.2.1 = path ++ rel ∧ StackInv x.1 (framesFor x.2.2 (framesAlong n rel) ++ fs)
+  (∃ rel, x.2.1 = path ++ rel ∧ StackInv x.1 (framesFor x.2.2 (framesAlong n rel) ++ fs)) ∧
+    EndTagOk env x
 
 theorem entry_lift {path : Path} {v : Value} {ks : List Tree} {fs : Frames} {x : FStack × Path × Output}
     {j : Nat} {k : Tree} {rel : Path} (hk : ks[j]? = some k) (hp : x.2.1 = path ++ j :: rel)
-    (hs : StackInv x.1 (framesFor x.2.2 (framesAlong k rel) ++ (frameOf (.node v ks) :: fs))) :
-    EntryOk path (.node v ks) fs x := by
-  refine ⟨j :: rel, hp, ?_⟩
+    (hs : StackInv x.1 (framesFor x.2.2 (framesAlong k rel) ++ (frameOf (.node v ks) :: fs)))
+    (he : EndTagOk env x) :
+    EntryOk env path (.node v ks) fs x := by
+  refine ⟨⟨j :: rel, hp, ?_⟩, he⟩
   have : framesAlong (.node v ks) (j :: rel) = framesAlong k rel ++ [frameOf (.node v ks)] := by
     simp [framesAlong, Tree.kids, hk]
   rw [this, framesFor_append]
   simpa [List.append_assoc] using hs
 
 theorem entry_self {path : Path} {n : Tree} {fs : Frames} {s : FStack} {o : Output}
-    (ho : o.isNeutral = true ∨ ∃ name, o = .endTag name) (hs : StackInv s (frameOf n :: fs)) :
-    EntryOk path n fs (s, path, o) := by
-  refine ⟨[], by simp, ?_⟩
+    (ho : o.isNeutral = true ∨ ∃ name, o = .endTag name) (hs : StackInv s (frameOf n :: fs))
+    (he : EndTagOk env (s, path, o)) :
+    EntryOk env path n fs (s, path, o) := by
+  refine ⟨⟨[], by simp, ?_⟩, he⟩
   have : framesFor o (framesAlong n []) = [frameOf n] := by
     rcases ho with ho | ⟨name, rfl⟩
     · cases o <;> simp [framesFor, framesAlong, Output.isNeutral] at ho ⊢
@@ -69,16 +82,17 @@ theorem genNode_element_split (inScope : List (Nat × Nat)) (isTop : Bool) (path
 /-- A node with one neutral event of its own (text, comment, PI) followed by its children's events. -/
 theorem leaf_trace (path : Path) (n : Tree) (o : Output) (ho : o.isNeutral = true)
     (hf : frameOf n = []) (s : FStack) (fs : Frames) (hinv : StackInv s fs) {evs : List (Path × Output)}
-    (hk : (∀ x ∈ stackTrace esc env pr t s evs, EntryOk path n fs x) ∧
+    (hk : (∀ x ∈ stackTrace esc env pr t s evs, EntryOk env path n fs x) ∧
       (∀ s', runStack esc env pr t s evs = some s' → s' = s)) :
-    (∀ x ∈ stackTrace esc env pr t s ((path, o) :: evs), EntryOk path n fs x) ∧
+    (∀ x ∈ stackTrace esc env pr t s ((path, o) :: evs), EntryOk env path n fs x) ∧
     (∀ s', runStack esc env pr t s ((path, o) :: evs) = some s' → s' = s) := by
   obtain ⟨k1, k2⟩ := hk
   constructor
   · intro x hx
     simp only [stackTrace, List.mem_cons] at hx
     rcases hx with rfl | hx
-    · exact entry_self (Or.inl ho) (by rw [hf]; exact StackInv.skip s fs hinv)
+    · exact entry_self env (Or.inl ho) (by rw [hf]; exact StackInv.skip s fs hinv)
+        (endTagOk_of_not_end env (by intro name hn; simp only at hn; subst hn; simp [Output.isNeutral] at ho))
     · cases hstep : stepStack esc env pr t s (path, o) with
       | none => simp [hstep] at hx
       | some s1 =>
@@ -99,7 +113,7 @@ theorem leaf_trace (path : Path) (n : Tree) (o : Output) (ho : o.isNeutral = tru
 mutual
 theorem genNode_trace (inScope : List (Nat × Nat)) (isTop : Bool) (path : Path) (n : Tree)
     (hat : t.at? path = some n) (hu : UniqueBelow n) (s : FStack) (fs : Frames) (hinv : StackInv s fs) :
-    (∀ x ∈ stackTrace esc env pr t s (genNode inScope isTop path n), EntryOk path n fs x) ∧
+    (∀ x ∈ stackTrace esc env pr t s (genNode inScope isTop path n), EntryOk env path n fs x) ∧
     (∀ s', runStack esc env pr t s (genNode inScope isTop path n) = some s' → s' = s) := by
   cases n with
   | node v ks =>
@@ -113,13 +127,13 @@ theorem genNode_trace (inScope : List (Nat × Nat)) (isTop : Bool) (path : Path)
     -- the part shared by every node kind: the children, entered with the node's own frame
     have kidsPart : ∀ s1, StackInv s1 (frameOf (.node v ks) :: fs) →
         (∀ x ∈ stackTrace esc env pr t s1 (genNode.genKids inScope path 0 ks),
-            EntryOk path (.node v ks) fs x) ∧
+            EntryOk env path (.node v ks) fs x) ∧
         (∀ s', runStack esc env pr t s1 (genNode.genKids inScope path 0 ks) = some s' → s' = s1) := by
       intro s1 h1
       obtain ⟨k1, k2⟩ := genKids_trace inScope path 0 ks hkat hku s1 _ h1
       refine ⟨fun x hx => ?_, k2⟩
-      obtain ⟨j, k, rel, hk, hp, hs⟩ := k1 x hx
-      exact entry_lift hk (by simpa using hp) hs
+      obtain ⟨⟨j, k, rel, hk, hp, hs⟩, he⟩ := k1 x hx
+      exact entry_lift env hk (by simpa using hp) hs he
     cases v with
     | element name =>
       rw [genNode_element_split]
@@ -132,12 +146,15 @@ theorem genNode_trace (inScope : List (Nat × Nat)) (isTop : Bool) (path : Path)
       · intro x hx
         simp only [stackTrace, List.mem_cons] at hx
         rcases hx with rfl | hx
-        · exact ⟨[], by simp, by simpa [framesFor, framesAlong] using hinv⟩
+        · exact ⟨⟨[], by simp, by simpa [framesFor, framesAlong] using hinv⟩,
+            endTagOk_of_not_end env (by intro nm hn; cases hn)⟩
         · cases hstep : stepStack esc env pr t s (path, Output.startTagOpen name) with
           | none => simp [hstep] at hx
           | some s1 =>
             simp only [hstep] at hx
             have hs1 := stepStack_open esc env pr t s s1 path name _ hat hstep
+            have hnd := stepStack_open_noDefault esc env pr t s s1 path name _ hat hstep
+            rw [← hs1] at hnd
             have hinv1 : StackInv s1 (frameOf (.node (.element name) ks) :: fs) := by
               rw [hs1, hframe]; exact hinv.push' hun
             obtain ⟨n1, n2⟩ := neutral_run esc env pr t s1 _ (fun po hpo => (hneut po hpo).1)
@@ -149,7 +166,8 @@ theorem genNode_trace (inScope : List (Nat × Nat)) (isTop : Bool) (path : Path)
               obtain ⟨xs, xp, xo⟩ := x
               simp only at e1 e3 e4
               subst e1; subst e4
-              exact entry_self (Or.inl e3) hinv1
+              exact entry_self env (Or.inl e3) hinv1
+                (endTagOk_of_not_end env (by intro nm hn; simp only at hn; subst hn; simp [Output.isNeutral] at e3))
             · have := n2 s2 hr2
               subst this
               obtain ⟨k1, k2⟩ := kidsPart s2 hinv1
@@ -160,7 +178,11 @@ theorem genNode_trace (inScope : List (Nat × Nat)) (isTop : Bool) (path : Path)
                 subst this
                 simp only [stackTrace, List.mem_cons] at hx3
                 rcases hx3 with rfl | hx3
-                · exact entry_self (Or.inr ⟨name, rfl⟩) hinv1
+                · refine entry_self env (Or.inr ⟨name, rfl⟩) hinv1 ?_
+                  intro nm hn
+                  simp only [Output.endTag.injEq] at hn
+                  subst hn
+                  exact hnd
                 · split at hx3 <;> cases hx3
       · intro s' hrun
         simp only [runStack] at hrun
@@ -221,8 +243,8 @@ theorem genKids_trace (inScope : List (Nat × Nat)) (path : Path) (i : Nat) (ks 
     (hu : ∀ (j : Nat) (k : Tree), ks[j]? = some k → UniqueBelow k) (s : FStack) (fs : Frames)
     (hinv : StackInv s fs) :
     (∀ x ∈ stackTrace esc env pr t s (genNode.genKids inScope path i ks),
-        ∃ (j : Nat) (k : Tree) (rel : Path), ks[j]? = some k ∧ x.2.1 = path ++ (i + j) :: rel ∧
-          StackInv x.1 (framesFor x.2.2 (framesAlong k rel) ++ fs)) ∧
+        (∃ (j : Nat) (k : Tree) (rel : Path), ks[j]? = some k ∧ x.2.1 = path ++ (i + j) :: rel ∧
+          StackInv x.1 (framesFor x.2.2 (framesAlong k rel) ++ fs)) ∧ EndTagOk env x) ∧
     (∀ s', runStack esc env pr t s (genNode.genKids inScope path i ks) = some s' → s' = s) := by
   cases ks with
   | nil => simp [genNode.genKids, stackTrace, runStack]
@@ -237,12 +259,12 @@ theorem genKids_trace (inScope : List (Nat × Nat)) (path : Path) (i : Nat) (ks 
     · intro x hx
       rcases (mem_stackTrace_append esc env pr t s (genNode inScope false (path ++ [i]) k)
         (genNode.genKids inScope path (i + 1) ks') x).mp hx with hx1 | ⟨s1, hr1, hx1⟩
-      · obtain ⟨rel, hp, hs⟩ := a1 x hx1
-        exact ⟨0, k, rel, rfl, by simp [hp], hs⟩
+      · obtain ⟨⟨rel, hp, hs⟩, he⟩ := a1 x hx1
+        exact ⟨⟨0, k, rel, rfl, by simp [hp], hs⟩, he⟩
       · have := a2 s1 hr1
         subst this
-        obtain ⟨j, k', rel, hk, hp, hs⟩ := b1 x hx1
-        exact ⟨j + 1, k', rel, by simpa using hk, by rw [hp]; simp; omega, hs⟩
+        obtain ⟨⟨j, k', rel, hk, hp, hs⟩, he⟩ := b1 x hx1
+        exact ⟨⟨j + 1, k', rel, by simpa using hk, by rw [hp]; simp; omega, hs⟩, he⟩
     · intro s' hrun
       rw [runStack_append] at hrun
       cases hr1 : runStack esc env pr t s (genNode inScope false (path ++ [i]) k) with
@@ -306,8 +328,8 @@ theorem genOutputs_trace (start : Path) (n : Tree) (inScope : List (Nat × Nat))
     (hat : t.at? start = some n) (hs : namespacesInScope t start = some inScope) (hu : UniqueBelow n)
     (x : FStack × Path × Output)
     (hx : x ∈ stackTrace esc env pr t (initStack t start) (genOutputs t start)) :
-    ∃ rel, x.2.1 = start ++ rel ∧
-      StackInv x.1 (framesFor x.2.2 (framesAlong n rel) ++ [inScope]) := by
+    (∃ rel, x.2.1 = start ++ rel ∧
+      StackInv x.1 (framesFor x.2.2 (framesAlong n rel) ++ [inScope])) ∧ EndTagOk env x := by
   have h0 : initStack t start = [inScope] := by simp [initStack, hs, FStack.new]
   have hg : genOutputs t start = genNode inScope true start n := by simp [genOutputs, hat, hs]
   rw [h0, hg] at hx
